@@ -1,7 +1,7 @@
 CONSTANTS
-  Rows = {1, 2, 3, 4}
-  Cols = {1, 2, 3, 4}
-  AllCand = TRUE
+  Rows = {1, 2, 3}
+  Cols = {1, 2, 3}
+  AllCand = FALSE
 SPECIFICATION GSpec
 INVARIANTS Emit Acyclic
 CHECK_DEADLOCK FALSE
